@@ -82,6 +82,8 @@ def src_digest(*blobs):
 
 def workdir(name):
     """scratch dir for one check under the cache, keyed by the tree"""
-    d = os.path.join(repo.CACHE, "work-" + repo.tree_key(), name)
+    root = os.path.join(repo.CACHE, "work-" + repo.tree_key())
+    d = os.path.join(root, name)
     os.makedirs(d, exist_ok=True)
+    os.utime(root, None)
     return d
